@@ -201,7 +201,13 @@ func (h *vHook) match(ch, stmt, at string, mut bool) *faultSpec {
 		h.census = append(h.census, fmt.Sprintf("%s|%d", key, occ))
 	}
 	f := h.fault
-	if f == nil || h.fired || f.Chan != ch || f.Stmt != stmt || f.At != at || f.Occ != occ {
+	if f == nil || f.Chan != ch || f.Stmt != stmt || f.At != at {
+		return nil
+	}
+	if f.Occ == 0 {
+		return f // persistent fault: every occurrence
+	}
+	if h.fired || f.Occ != occ {
 		return nil
 	}
 	h.fired = true
